@@ -395,8 +395,17 @@ int runCorr(uint64_t seed, bool thorough, const std::string& outdir) {
             for (const auto& n : nodes)
                 for (const auto& k : keys) if (k[0] == n.cat) { bool h; prev[n.name + "/" + k] = getVar(st, n.cat, n.name, k, h); }
             const double dt = ev.secs - st.get_elapsed();
+            const double elapsedBefore = st.get_elapsed();
             const std::string state = dumpState(R, st, simStep, wd);
             writer.eval(st, ev.reportStep, ev.secs, wd, {}, {}, {}, {}, {});
+            {
+                std::ostringstream top;
+                top << "sumfuns.time " << static_cast<long long>(R.sched.getStartTime()) << ' ' << vh::hexF64(elapsedBefore) << ' '
+                    << vh::hexF64(dt) << ' ' << vh::hexF64(R.es.getUnits().from_si(M::time, 1.0));
+                for (const char* k : {"TIME", "YEARS", "DAY", "MONTH", "YEAR"}) top << ' ' << vh::hexF64(st.has(k) ? st.get(k) : -1.0);
+                sink.emit(top.str(), "ok");
+                sink.count("time.ops");
+            }
             sink.count(dt == 0.0 ? "eval.dt_zero" : "eval.dt_pos");
             // parent pointers and children lists of the real Schedule describe one tree
             sink.emit("sumfuns.tree " + state.substr(0, state.find(" W ")), "ok");
